@@ -47,8 +47,11 @@ impl Posting {
         })
     }
 }
-pub fn txn_sum(posts: &Posts) -> Decimal {
-    posts.iter().map(|p| p.txn_amount).sum()
+pub fn txn_sum(posts: &Posts) -> Result<Decimal, tackler::Error> {
+    posts
+        .iter()
+        .try_fold(Decimal::ZERO, |sum, p| sum.checked_add(p.txn_amount))
+        .ok_or_else(|| "Sum of postings is out of range (decimal overflow)".into())
 }
 
 impl Display for Posting {
